@@ -7,7 +7,7 @@ use poulpy_hal::{
         VecZnxNormalizeTmpBytes, VecZnxRotate, VecZnxRotateAssign, VecZnxRotateAssignTmpBytes, VecZnxRshAssign,
         VecZnxRshTmpBytes, VecZnxSub, VecZnxSubAssign, VecZnxSubNegateAssign, VecZnxZero,
     },
-    layouts::{Backend, DataMut, DataRef, Module, Scratch, VecZnx, VecZnxBig},
+    layouts::{Backend, DataMut, DataRef, Module, Scratch, VecZnx, VecZnxBig, ZnxZero},
 };
 
 pub use crate::api::{
@@ -588,6 +588,7 @@ where
         }
 
         let (mut res_dft, scratch_2) = scratch_1.take_vec_znx_dft(self, cols, tsk_size); // Todo optimise
+        res_dft.zero(); // TODO: remove once the above has the correct size
 
         self.gglwe_product_dft(&mut res_dft, &a_dft, &tsk.0, scratch_2);
         let mut res_big: VecZnxBig<&mut [u8], BE> = self.vec_znx_idft_apply_consume(res_dft);
